@@ -572,7 +572,7 @@ func constraintKind(s string) string {
 }
 
 func inProcessLeg(c *core.Ctx) {
-	n := c.Pick(300, 20000)
+	n := c.Pick(300, 12000)
 	var cases []caseSpec
 	for i := 0; i < n; i++ {
 		cs := genCase(c, i)
@@ -867,7 +867,7 @@ func cliLeg(c *core.Ctx) {
 	srv.Set("official", &plugtest.Repo{Slug: "core"})
 	testplugin := filepath.Join(c.BinDir, "testplugin")
 
-	n := c.Pick(48, 1200)
+	n := c.Pick(40, 500)
 	selfLeft := 2
 	var cases []cliCase
 	for i := 0; i < n; i++ {
@@ -897,7 +897,7 @@ func cliLeg(c *core.Ctx) {
 		runCLICase(c, r, srv, sockDir, testplugin, cases[i], selfIdx[i])
 	})
 
-	ni := c.Pick(16, 300)
+	ni := c.Pick(16, 150)
 	var icases []installCLICase
 	for i := 0; i < ni; i++ {
 		cs := genInstallCLICase(c, i)
